@@ -162,6 +162,16 @@ def proofs(ctx):
     if len(blocks) != len(names):
         res.update(ok=False, log='could not match Print Assumptions output to theorems (%d vs %d)' % (len(blocks), len(names)))
     res['make_s'] = round(time.time() - t0, 1)
+    if not ctx.quick and res['ok']:
+        # thorough: re-check the compiled closure with the independent checker and list the axioms it relies on
+        r = C.sh(['timeout', '3000', 'coqchk', '-o', '-silent', '-Q', 'gen', 'Aby', '-Q', 'theories', 'Aby', '-Q', 'Props', 'Aby.Props',
+                  'Aby.Props.%s' % pid], cwd=C.COQ, timeout=3100)
+        out = r.stdout + r.stderr
+        m = re.search(r'\* Axioms:(.*?)\n\s*\n\* Constants', out, re.S)
+        axioms = m.group(1).strip() if m else 'unparsed'
+        res['coqchk'] = {'rc': r.returncode, 'axioms': axioms, 'summary': out[-700:]}
+        if r.returncode != 0 or axioms != '<none>':
+            res.update(ok=False, log='coqchk -o on the closure of Props/%s.vo: rc=%d axioms=%s' % (pid, r.returncode, axioms[:300]))
     return res
 
 
@@ -1374,7 +1384,7 @@ def scen_C13(ctx):
     ctx.rule = ('L_open: all 25 ordered pairs (created as / opened as) of the five key types; for every pair of different types and each of the three '
                 'files, that file alone replaced by the other type\'s; every single-byte mutation of the 16 signature bytes of each file (quick: 24 '
                 'byte values per position incl. +-1, bit flips, 0, 255; thorough: all 255): the open must be rejected before any result and leave all '
-                'files byte-identical; the only accepted foreign opens are the known finding (u64 <-> vu64); distinct = distinct (scenario, case) tuples')
+                'files byte-identical; the only accepted foreign opens are the known finding (u64 <-> vu64); the matrix runs on maps holding a record and on never-written (header-only) maps; distinct = distinct (scenario, case) tuples')
     kf = [k for k in C.known_findings() if k.get('property') == 'C13']
     known_pairs = {('u64', 'vu64'), ('vu64', 'u64')} if kf else set()
     lines = ['db d0 db']
@@ -1414,56 +1424,61 @@ def scen_C13(ctx):
     # (b) one file replaced by another type's, (c) signature byte mutations: harness only + direct oracle
     import random
     rng = random.Random('%s/C13' % ctx.seed)
-    base = ['db d0 db'] + sum([['map m%s d0 %s t_%s B8' % (a, a, a), 'put m%s %s 0102' % (a, G.hx(G.vu64(5)))] for a in G.KTS], []) + ['closeall', 'snap db']
-    cases = []
-    for a in G.KTS:
-        for b in G.KTS:
-            if a == b or (a, b) in known_pairs: continue
+    def matrix(populated):
+        tag = '' if populated else '_empty'
+        base = ['db d0 db'] + sum([['map m%s d0 %s t_%s B8' % (a, a, a)] + (['put m%s %s 0102' % (a, G.hx(G.vu64(5)))] if populated else []) for a in G.KTS], []) + ['closeall', 'snap db']
+        cases = []
+        for a in G.KTS:
+            for b in G.KTS:
+                if a == b or (a, b) in known_pairs: continue
+                for ext in ('key', 'val', 'htx'):
+                    cases.append(('foreign', a, b, ext))
+        sig_bytes = {}
+        for a in G.KTS:
             for ext in ('key', 'val', 'htx'):
-                cases.append(('foreign', a, b, ext))
-    sig_bytes = {}
-    for a in G.KTS:
-        for ext in ('key', 'val', 'htx'):
-            for pos in range(16):
-                cases.append(('mut', a, ext, pos))
-    lines = list(base)
-    marks = []
-    sigs = {'string': b'string\0\0', 'bytes': b'bytes\0\0\0', 'i64': b'i64_le\0\0', 'u64': b'u64_le\0\0', 'vu64': b'u64_le\0\0'}
-    s1 = {'key': b'abysdbK\0', 'val': b'abysdbV\0', 'htx': b'abysdbH\0'}
-    for cs in cases:
-        if cs[0] == 'foreign':
-            _, a, b, ext = cs
-            lines += ['cpfile db t_%s.%s keep.%s' % (a, ext, ext), 'cpfile db t_%s.%s t_%s.%s' % (b, ext, a, ext), 'snap db',
-                      'db d0 db', 'map mx d0 %s t_%s default' % (a, a)]
-            marks.append((len(lines) - 1, cs, None))
-            lines += ['closeall', 'snap db', 'cpfile db keep.%s t_%s.%s' % (ext, a, ext)]
-        else:
-            _, a, ext, pos = cs
-            orig = (s1[ext] + sigs[a])[pos]
-            vals = set([(orig + 1) % 256, (orig - 1) % 256, 0, 255, orig ^ 1, orig ^ 0x20, orig ^ 0x80] + [rng.randrange(256) for _ in range(17)]) if ctx.quick else set(range(256))
-            vals.discard(orig)
-            for v in sorted(vals):
-                # a mutation of a type signature into the other type of the known pair is the known finding, not a new one
-                lines += ['mutate db t_%s.%s %d %d' % (a, ext, pos, v), 'snap db', 'db d0 db', 'map mx d0 %s t_%s default' % (a, a)]
-                marks.append((len(lines) - 1, cs, v))
-                lines += ['closeall', 'snap db', 'mutate db t_%s.%s %d %d' % (a, ext, pos, orig)]
-    il, ist = impl_only(lines, os.path.join(ctx.root, 'mx'), op_timeout=30)
-    ctx.evaluations += len(marks)
-    ctx.scen_counts['foreign+mutations'] = len(marks)
-    for j, cs, v in marks:
-        ctx.distinct.add(str((cs, v)))
-        if j >= len(il):
-            ctx.violation('mx_crash', 'the open matrix ended with %s' % ist, lines[:j + 1]); break
-        before, after = il[j - 2], il[j + 2] if j + 2 < len(il) else None
-        if il[j] == 'ok' or not (il[j] == 'panic' or il[j].startswith('err')):
-            ctx.violation('accepted_%s' % '_'.join(str(x) for x in cs), 'open accepted files with a foreign/mutated signature: case %s value %s -> `%s`' % (cs, v, il[j]),
-                          base[:-1] + lines[j - 3:j + 1]); break
-        if after is not None and before != after:
-            ctx.violation('rejected_open_wrote_%s' % '_'.join(str(x) for x in cs), 'a rejected open changed the files: case %s value %s: before `%s` after `%s`' % (cs, v, before[:200], after[:200]),
-                          base[:-1] + lines[j - 3:j + 3]); break
-    if len(ctx.samples) < 6:
-        ctx.samples.append({'scenario': 'mutations', 'ops': lines[len(base):len(base) + 8]})
-    shutil.rmtree(os.path.join(ctx.root, 'mx'), ignore_errors=True)
+                for pos in range(16):
+                    cases.append(('mut', a, ext, pos))
+        lines = list(base)
+        marks = []
+        sigs = {'string': b'string\0\0', 'bytes': b'bytes\0\0\0', 'i64': b'i64_le\0\0', 'u64': b'u64_le\0\0', 'vu64': b'u64_le\0\0'}
+        s1 = {'key': b'abysdbK\0', 'val': b'abysdbV\0', 'htx': b'abysdbH\0'}
+        for cs in cases:
+            if cs[0] == 'foreign':
+                _, a, b, ext = cs
+                lines += ['cpfile db t_%s.%s keep.%s' % (a, ext, ext), 'cpfile db t_%s.%s t_%s.%s' % (b, ext, a, ext), 'snap db',
+                          'db d0 db', 'map mx d0 %s t_%s default' % (a, a)]
+                marks.append((len(lines) - 1, cs, None))
+                lines += ['closeall', 'snap db', 'cpfile db keep.%s t_%s.%s' % (ext, a, ext)]
+            else:
+                _, a, ext, pos = cs
+                orig = (s1[ext] + sigs[a])[pos]
+                vals = set([(orig + 1) % 256, (orig - 1) % 256, 0, 255, orig ^ 1, orig ^ 0x20, orig ^ 0x80] + [rng.randrange(256) for _ in range(17 if populated else 3)]) if (ctx.quick or not populated) else set(range(256))
+                vals.discard(orig)
+                for v in sorted(vals):
+                    # a mutation of a type signature into the other type of the known pair is the known finding, not a new one
+                    lines += ['mutate db t_%s.%s %d %d' % (a, ext, pos, v), 'snap db', 'db d0 db', 'map mx d0 %s t_%s default' % (a, a)]
+                    marks.append((len(lines) - 1, cs, v))
+                    lines += ['closeall', 'snap db', 'mutate db t_%s.%s %d %d' % (a, ext, pos, orig)]
+        il, ist = impl_only(lines, os.path.join(ctx.root, 'mx' + tag), op_timeout=30)
+        ctx.evaluations += len(marks)
+        ctx.scen_counts['foreign+mutations' + tag] = len(marks)
+        for j, cs, v in marks:
+            ctx.distinct.add(str((tag, cs, v)))
+            if j >= len(il):
+                ctx.violation('mx_crash' + tag, 'the open matrix ended with %s' % ist, lines[:j + 1]); break
+            before, after = il[j - 2], il[j + 2] if j + 2 < len(il) else None
+            if il[j] == 'ok' or not (il[j] == 'panic' or il[j].startswith('err')):
+                ctx.violation('accepted%s_%s' % (tag, '_'.join(str(x) for x in cs)), 'open accepted files with a foreign/mutated signature: case %s value %s -> `%s`' % (cs, v, il[j]),
+                              base[:-1] + lines[j - 3:j + 1]); break
+            if after is not None and before != after:
+                ctx.violation('rejected_open_wrote%s_%s' % (tag, '_'.join(str(x) for x in cs)), 'a rejected open changed the files: case %s value %s: before `%s` after `%s`' % (cs, v, before[:200], after[:200]),
+                              base[:-1] + lines[j - 3:j + 3]); break
+        if len(ctx.samples) < 6:
+            ctx.samples.append({'scenario': 'mutations', 'ops': lines[len(base):len(base) + 8]})
+        shutil.rmtree(os.path.join(ctx.root, 'mx' + tag), ignore_errors=True)
+    # maps holding a record, and maps that were created and closed without ever being written (header-only files)
+    matrix(True)
+    matrix(False)
 
 
 SCENARIOS['C13'] = scen_C13
@@ -1522,7 +1537,8 @@ def scen_C14(ctx):
             else:
                 lines.append('delstr m0 %s' % G.hx(r.choice(ks)))
             g.count(lines[-1].split()[0])
-        lines += ['len m0', 'iter m0 iter', 'closeall']
+        # the order of traversal is not part of this property: read every key instead of comparing item sequences
+        lines += ['len m0'] + ['get m0 %s' % G.hx(k) for k in ks] + ['closeall']
         pair(ctx, 'bulk', i, lines, stats=g.stats)
     parallel(one, range(ctx.scale(70, 500)))
 
@@ -1577,17 +1593,20 @@ def scen_C16(ctx):
         ks = g.key_universe(kt, 8)
         sy = ['flush', 'syncall', 'syncdata'][i % 3]
         big = 0.15 if h % 2 else 0.0
-        pre = ['db d0 db', 'map m0 d0 %s m %s' % (kt, g.params(n=g.rng.choice([1, 8, 64])))] + g.hist(kt, ctx.scale(40, 150), keys=ks, big=big, reads=0.05)
+        pre = ['db d0 db', 'map m0 d0 %s m %s' % (kt, g.params(n=g.rng.choice([1, 8, 64, 2048, 8192])))] + g.hist(kt, ctx.scale(40, 150), keys=ks, big=big, reads=0.05)
         if h % 3 == 0:
             pre += ['flush m0'] + g.hist(kt, 10, keys=ks, big=big, reads=0.0)      # some chunks already clean
+        # after the limit is lifted the same call must succeed and make everything durable: the files are checksummed and
+        # the directory is copied while the handles are alive; the copy is opened and read completely at the end
         lines = pre + ['limit %d' % L, '%s m0' % sy, 'snap db', 'unlimit'] + ['get m0 %s' % G.hx(k) for k in ks] + ['len m0', 'iter m0 iter',
-                 '%s m0' % sy, 'snap db'] + g.hist(kt, 10, keys=ks, big=0.0) + ['flush m0', 'snap db', 'closeall', 'snap db']
+                 '%s m0' % sy, 'snap db', 'cpdir db c1'] + g.hist(kt, 10, keys=ks, big=0.0) + ['flush m0', 'snap db', 'closeall', 'snap db'] + \
+                ['db dc c1', 'map mc dc %s m default' % kt] + ['get mc %s' % G.hx(k) for k in ks] + ['len mc', 'closeall']
         r = pair(ctx, 'fault', i, lines, stats=g.stats if i % 4 == 0 else None)
         il = r.get('impl_lines') or []
         if r.get('ok') and len(il) == len(lines):
             j = len(pre) + 1
             res = il[j]
-            final = il[-1]
+            final = il[lines.index('closeall') + 1]
             maxlen = max(int(x.split('=')[1].split(':')[0]) for x in final.split()[1:])
             ctx.distribution.setdefault('flush_under_limit', {})
             key = 'err' if res.startswith('err') else 'ok'
